@@ -44,6 +44,28 @@ def cases(draw, d):
         nodes = nodes + [("assign", "zz", [gt.T("1", "word", ("int", 1))],
                           ("int", 1), False)]
         n = 1
+    if draw(st.integers(0, 3)) == 0:
+        # parameters named like a value keyword: 'TRUE = 1' is an assignment to the
+        # default loader, and so it is when the statement before it lacks its value
+        kw = draw(st.lists(st.sampled_from(["TRUE", "true", "Null", "NULL", "false",
+                                            "False", "nUlL"]), min_size=8, max_size=8))
+        pick = draw(st.lists(st.booleans(), min_size=40, max_size=40))
+        counter = [0]
+
+        def rename(nds):
+            out = []
+            for nd in nds:
+                if nd[0] == "assign":
+                    i = counter[0]
+                    counter[0] += 1
+                    if pick[i % 40]:
+                        nd = ("assign", kw[i % 8]) + tuple(nd[2:])
+                    out.append(nd)
+                else:
+                    out.append(tuple(nd[:5]) + (rename(nd[5]),) + tuple(nd[6:]))
+            return out
+
+        nodes = rename(nodes)
     style = draw(st.integers(0, 9))
     if style < 2 and n >= 2:
         i = draw(st.integers(0, n - 2))
